@@ -100,6 +100,14 @@ class Ctx:
         self.skipped = 0
         self.known = {}
 
+    def expired(self):
+        """Long-running case functions (BFS) poll this; a run that hits the time cap reports exhaustive: false (R8)."""
+        if self.deadline is not None and time.time() > self.deadline:
+            if self.capped is None:
+                self.capped = self.idx
+            return True
+        return False
+
     # -- bookkeeping -------------------------------------------------------------------------
     def tally(self, key, n=1):
         self.t[key] += n
